@@ -190,10 +190,9 @@ def exec (s : St) (t : List String) : St × String :=
     else (s, "bad-op | -")
   | ["probe", j, g, _i] =>
     let s := { s with seq := s.seq + 1 }
-    if canDecrypt (client s (n j)) (n g) (head s (n g)).nid (head s (n g)).tok then
-      let s := setClient s (n j) (storeProbe (client s (n j)) (n g) s.seq)
-      (s, s!"app | {view s (n j)}")
-    else (s, s!"noapp | {view s (n j)}")
+    let (c, ok) := deliverApp (client s (n j)) (n g) (head s (n g)).nid (head s (n g)).tok s.seq
+    let s := setClient s (n j) c
+    (s, s!"{if ok then "app" else "noapp"} | {view s (n j)}")
   | ["view", j] => (s, s!"ok | {view s (n j)}")
   | _ => (s, "bad-op | -")
 
